@@ -831,6 +831,11 @@ fn add_primary_to_secoundary(
         sender: Some(sender.clone()),
     });
     let tcp_addr = tcp_addr.clone();
+    #[cfg(feature = "verif")]
+    let receiver = match crate::verif::offer_link("pri2sec", &name, &tcp_addr, &dbs, receiver) {
+        Some(r) => r,
+        None => return thread::spawn(|| {}),
+    };
     let guard = thread::spawn(move || {
         start_replication(name, receiver, user, pwd, tcp_addr.to_string(), false, &dbs);
     });
@@ -855,6 +860,11 @@ fn add_secondary_to_primary(
 
     let tcp_addr = tcp_addr.clone();
     let dbs = dbs.clone();
+    #[cfg(feature = "verif")]
+    let receiver = match crate::verif::offer_link("sec2pri", &name, &tcp_addr, &dbs, receiver) {
+        Some(r) => r,
+        None => return thread::spawn(|| {}),
+    };
     let guard = thread::spawn(move || {
         start_replication(
             name.clone(),
@@ -893,6 +903,11 @@ fn add_secondary_to_secoundary(
     let tcp_addr = tcp_addr.clone();
     // let dbs = dbs.clone();
 
+    #[cfg(feature = "verif")]
+    let receiver = match crate::verif::offer_link("sec2sec", &name, &tcp_addr, &dbs, receiver) {
+        Some(r) => r,
+        None => return thread::spawn(|| {}),
+    };
     let guard = thread::spawn(move || {
         start_replication(
             name.clone(),
@@ -1252,6 +1267,29 @@ pub async fn auth_on_replication(
         }
         _ => Ok(()),
     }
+}
+
+/// Verification twin of auth_on_replication + start_sync_process: the lines a node writes when it
+/// opens a replication link (the harness self-test compares it with the real async function).
+#[cfg(feature = "verif")]
+pub fn verif_handshake_lines(
+    user: &String,
+    pwd: &String,
+    tcp_addr: &String,
+    is_primary: bool,
+) -> Vec<String> {
+    let mut lines = vec![format!("auth {} {}\n", user, pwd)];
+    if is_primary {
+        lines.push(format!("set-primary {}\n", tcp_addr));
+    } else {
+        lines.push(format!("set-secoundary {}\n", tcp_addr));
+        lines.push(format!(
+            "replicate-since {} {}\n",
+            tcp_addr.to_string(),
+            Oplog::last_op_time()
+        ));
+    }
+    lines
 }
 
 fn make_create_db_command(db: &Database) -> String {
